@@ -12,6 +12,7 @@ import (
 
 	"verif/internal/kinds"
 	"verif/internal/load"
+	"verif/internal/norm"
 	"verif/internal/paths"
 	"verif/internal/report"
 )
@@ -152,6 +153,7 @@ func PrintSlotsFacts(p *load.Program, tb *kinds.Table) (*report.RuleResult, *Pri
 		res.Unknown("impl/helpers", "-", "", "undecided:anchor: "+msg)
 		return res, facts
 	}
+	im.UseNorm(im.printKeep(roles), norm.Options{})
 	kms, missing := im.KindMethods()
 	for _, m := range missing {
 		res.Bad("method/"+m, "-", m, "printer does not declare this visitor method itself")
@@ -164,8 +166,22 @@ func PrintSlotsFacts(p *load.Program, tb *kinds.Table) (*report.RuleResult, *Pri
 	return res, facts
 }
 
-func (im *Impl) parseDefault(e ast.Expr, n, recv types.Object, roles *printRoles) Default {
+// printKeep: the printer's primitives (verified by print-helpers) and the
+// per-kind methods; every other function of the package is inlined.
+func (im *Impl) printKeep(roles *printRoles) func(fn *types.Func) bool {
+	return func(fn *types.Func) bool {
+		n := fn.Name()
+		return n == roles.tok || n == roles.node || n == roles.list || n == roles.seplist || n == roles.write || roles.selectors[n] || im.Kinds.ByMethod[n] != nil
+	}
+}
+
+func (im *Impl) parseDefault(e ast.Expr, n, recv types.Object, roles *printRoles, env map[types.Object]Default) Default {
 	var d Default
+	if id, ok := unparen(e).(*ast.Ident); ok {
+		if v, ok := env[im.info().Uses[id]]; ok {
+			return v
+		}
+	}
 	if im.isNil(e) {
 		d.Nil = true
 		return d
@@ -191,7 +207,7 @@ func (im *Impl) parseDefault(e ast.Expr, n, recv types.Object, roles *printRoles
 				return d
 			}
 			for _, a := range call.Args[1:] {
-				sub := im.parseDefault(a, n, recv, roles)
+				sub := im.parseDefault(a, n, recv, roles, env)
 				if sub.Bad != "" {
 					return sub
 				}
@@ -213,7 +229,7 @@ func (im *Impl) printMethod(res *report.RuleResult, facts *PrintFacts, roles *pr
 	recv, n := im.recvObj(fd), im.paramObj(fd, 0)
 	fn := "printer." + k.Method
 	pos := im.pos(fd)
-	ps, err := paths.Enumerate(fd.Body)
+	ps, err := paths.Enumerate(im.Body(fd))
 	if err != nil {
 		res.Unknown(k.Name, pos, fn, "undecided:idiom: "+err.Error())
 		return
@@ -284,11 +300,49 @@ func (im *Impl) printMethod(res *report.RuleResult, facts *PrintFacts, roles *pr
 			}
 			return "", false, false
 		}
+		env := map[types.Object]Default{} // local lexeme variables: what they hold on this path
 		for _, it := range path {
 			switch {
 			case it.Stmt != nil:
 				switch s := it.Stmt.(type) {
+				case *ast.DeclStmt:
+					// var lexeme []byte
+					okDecl := false
+					if gd, ok := s.Decl.(*ast.GenDecl); ok && gd.Tok == token.VAR {
+						okDecl = true
+						for _, sp := range gd.Specs {
+							vs := sp.(*ast.ValueSpec)
+							for i, nm := range vs.Names {
+								o := im.info().Defs[nm]
+								if o == nil || kinds.Classify(o.Type(), im.Kinds) != kinds.Bytes {
+									okDecl = false
+									continue
+								}
+								if i < len(vs.Values) {
+									env[o] = im.parseDefault(vs.Values[i], n, recv, roles, env)
+								} else {
+									env[o] = Default{Nil: true}
+								}
+							}
+						}
+					}
+					if !okDecl {
+						undec = fmt.Sprintf("path %d: unrecognised declaration at %s", pi, im.pos(s))
+					}
 				case *ast.AssignStmt:
+					// lexeme = []byte("…") / lexeme := …
+					if len(s.Lhs) == 1 && len(s.Rhs) == 1 {
+						if id, ok := s.Lhs[0].(*ast.Ident); ok {
+							o := im.info().Defs[id]
+							if o == nil {
+								o = im.info().Uses[id]
+							}
+							if v, isVar := o.(*types.Var); isVar && !v.IsField() && v.Parent() != v.Pkg().Scope() && kinds.Classify(v.Type(), im.Kinds) == kinds.Bytes {
+								env[o] = im.parseDefault(s.Rhs[0], n, recv, roles, env)
+								continue
+							}
+						}
+					}
 					// stmt, ok := n.F.(*ast.K)
 					if f, ko, ao, ok := im.assertAlias(s, n); ok {
 						aliasObj, aliasField, aliasKind = ao, f, ko
@@ -317,9 +371,9 @@ func (im *Impl) printMethod(res *report.RuleResult, facts *PrintFacts, roles *pr
 							localBad = fmt.Sprintf("printToken argument %s is not a slot of the node being printed", exprString(call.Args[0]))
 							continue
 						}
-						def := im.parseDefault(call.Args[1], n, recv, roles)
+						def := im.parseDefault(call.Args[1], n, recv, roles, env)
 						if al {
-							def = im.parseDefault(call.Args[1], aliasObj, recv, roles)
+							def = im.parseDefault(call.Args[1], aliasObj, recv, roles, env)
 						}
 						record(slotEvent{field: f, helper: m, def: def, alias: al, pos: call.Pos()})
 					case roles.node, roles.list:
@@ -336,7 +390,7 @@ func (im *Impl) printMethod(res *report.RuleResult, facts *PrintFacts, roles *pr
 							localBad = fmt.Sprintf("printSeparatedList arguments %s, %s are not slots of the node being printed", exprString(call.Args[0]), exprString(call.Args[1]))
 							continue
 						}
-						def := im.parseDefault(call.Args[2], n, recv, roles)
+						def := im.parseDefault(call.Args[2], n, recv, roles, env)
 						record(slotEvent{field: f, sep: sf, helper: m, def: def, alias: al, pos: call.Pos()})
 					case roles.write:
 						if c, ok := im.constBytes(call.Args[0]); ok {
